@@ -9,10 +9,15 @@
     relation or in a schema of the reference table names an entry of that table, and no entry
     is left pending ([C03_spec_refs_closed]; invariant: every key mentioned by a value, a scope
     or a table entry is in the table or is the variable of a recursion being evaluated). The
-    emitter's half (names of components = names in $ref) and the YAML re-parse clause are
-    checked on the implementation only. *)
+    emitter's half, on the model of oal-openapi's Builder (Model/Builder.v, tied to the real
+    Builder on every run: identical JSON documents): the builder never hits its
+    `expect("reference should exist")` on the Spec of a successful evaluation
+    ([C03_builder_total_on_evaluated_specs]); a reference is written as a `$ref` exactly when
+    its entry is kept as a component, and then the name in the `$ref` is a key of
+    components.schemas ([C03_ref_written_iff_component_kept], [C03_refs_name_emitted_components]).
+    The YAML re-parse clause is checked on the implementation only. *)
 From Oal Require Import SpecUri SpecUriProofs.
-From Oal Require Eval ClosureProofs.
+From Oal Require Eval ClosureProofs Builder BuilderProofs.
 
 Theorem C03_path_params_match : forall segs,
   forallb wf_seg segs = true -> braces (pattern segs) None = path_params segs.
@@ -60,3 +65,25 @@ Example C03_two_components_referenced :
     Eval.eval_program false ClosureProofs.ex_rec_P 50 ClosureProofs.ex_rec_rs = Eval.Ok (rels, [(k1, sc1); (k2, sc2)]) /\ k1 <> k2 /\
     In k1 (flat_map ClosureProofs.ks_relation rels) /\ In k2 (flat_map ClosureProofs.ks_relation rels).
 Proof. exact ClosureProofs.ex_rec_two_components. Qed.
+
+(** * the builder on the evaluator's Spec *)
+Theorem C03_builder_total_on_evaluated_specs : forall strs names P n rs rels table,
+  Eval.eval_program false P n rs = Eval.Ok (rels, table) ->
+  exists j, Builder.document strs table names rels = Some j.
+Proof. exact BuilderProofs.builder_never_panics. Qed.
+Print Assumptions C03_builder_total_on_evaluated_specs.
+
+Theorem C03_ref_written_iff_component_kept : forall strs table names k i s,
+  Builder.key_pos k table 0 = Some (i, s) ->
+  (BuilderProofs.kept strs k s = true -> Builder.reference_json strs table names k = Some (Builder.jref names i)) /\
+  (BuilderProofs.kept strs k s = false -> Builder.reference_json strs table names k = Builder.atomic_json strs s).
+Proof. exact BuilderProofs.reference_is_ref_iff_kept. Qed.
+Print Assumptions C03_ref_written_iff_component_kept.
+
+Theorem C03_refs_name_emitted_components : forall strs table names k i s cs,
+  Builder.key_pos k table 0 = Some (i, s) ->
+  Builder.reference_json strs table names k = Some (Builder.jref names i) -> BuilderProofs.kept strs k s = true ->
+  Builder.components strs table names table 0 [] = Some cs ->
+  In (Builder.untagged (Builder.name_at names i)) (map fst cs).
+Proof. exact BuilderProofs.refs_name_emitted_components. Qed.
+Print Assumptions C03_refs_name_emitted_components.
